@@ -91,18 +91,33 @@ func tlogRead(file []byte, drw *dialect.ReadWriter, n int) string {
 	if err := rd.Initialize(); err != nil {
 		return "INITERR"
 	}
-	var out []string
+	// the entries are kept and rendered only after the last read: an entry stays what it was
+	// when returned, whatever is read after it
+	type rec struct {
+		e    *tlog.Entry
+		mark string
+	}
+	var recs []rec
 	for i := 0; i < n; i++ {
 		var e *tlog.Entry
 		var err error
 		if hx.Safe(func() string { e, err = rd.Read(); return "" }) == "panic" {
-			out = append(out, "PANIC")
+			recs = append(recs, rec{nil, "PANIC"})
 			break
 		}
 		if err != nil {
-			out = append(out, "X")
+			recs = append(recs, rec{nil, "X"})
 			continue
 		}
+		recs = append(recs, rec{e, ""})
+	}
+	var out []string
+	for _, rc := range recs {
+		if rc.e == nil {
+			out = append(out, rc.mark)
+			continue
+		}
+		e := rc.e
 		s := fmt.Sprintf("E(%d#%s)", e.Time.UnixMicro(), hx.Frame(e.Frame))
 		if e.Time.Nanosecond()%1000 != 0 || e.Time.Location() != time.UTC {
 			s += "BAD-TIME"
